@@ -76,3 +76,32 @@ Definition complete_item_rn_b (g : grammar) (T : table) (st : state) (it : item)
 Definition complete_rn_b (g : grammar) (T : table) : bool :=
   shape_b g T && first_closed_b g T && start_item_b T &&
   forallb (fun st => forallb (complete_item_rn_b g T st) (s_items st)) (t_states T).
+
+(* ---- panic-freedom conditions for the nondeterministic machine (C15, GLR side):
+   gotos defined, no reduction by an augmented production, and the tail a
+   right-nulled reduction elides consists of symbols that have a derivation of
+   the empty string (computed once per grammar) --------------------------------- *)
+(* symbols with a derivation of the empty string of height <= i, by rounds (each round
+   looks only at the symbols of the round before, so the height bound is exact) *)
+Definition nul_round (g : grammar) (N : list nat) : list nat :=
+  N ++ map p_lhs (filter (fun pr => forallb (fun x => memb x N) (p_rhs pr)) (g_prods g)).
+
+Fixpoint nul_iter (g : grammar) (i : nat) : list nat :=
+  match i with
+  | 0 => []
+  | S k => nul_round g (nul_iter g k)
+  end.
+
+Definition eps_ok_syms (g : grammar) : list nat := nodup Nat.eq_dec (nul_iter g (eps_bound g)).
+
+Definition rn_tails_b (g : grammar) (E : list nat) (st : state) : bool :=
+  forallb (fun acts =>
+             forallb (fun act => match act with
+                                 | Reduce p len => forallb (fun X => memb X E) (skipn len (rhs g p))
+                                 | _ => true
+                                 end) acts) (s_actions st).
+
+Definition safe_rn_b (g : grammar) (T : table) : bool :=
+  sound_rn_b g T &&
+  (let E := eps_ok_syms g in
+   forallb (fun st => goto_ok_b g st && no_aug_reduce_b g st && rn_tails_b g E st) (t_states T)).
